@@ -720,12 +720,19 @@ def rule_done(env, shared):
                 if b.is_closure:
                     pb = F.bodies.get(b.parent)
                     if pb is not None:
-                        pctx = env.ctx(pb, sa, T.world)
-                        for e2 in T.direct_events(pb, sa):
-                            if e2.kind == "atomic" and e2.info["op"] == "store" and T.role_of(e2.info["place"])[0] == "done":
-                                for f in env.event_facts(e2):
-                                    if f[0] == "lt" and len(f) == 3 and "Iterator::collect" in fmt(f[1]):
-                                        has_len_guard = True
+                        def len_guard_in(xb):
+                            for e2 in T.direct_events(xb, F.impl_self_adt(xb) or sa):
+                                if e2.kind == "atomic" and e2.info["op"] == "store" and T.role_of(e2.info["place"])[0] == "done":
+                                    for f in env.event_facts(e2):
+                                        if f[0] == "lt" and len(f) == 3 and "Iterator::collect" in fmt(f[1]):
+                                            return True
+                            return False
+                        has_len_guard = has_len_guard or len_guard_in(pb)
+                        if not has_len_guard and not pb.is_closure and not (pb.info or {}).get("exported"):
+                            # the parent only builds the lazy chain and returns it: whoever collects it sets the flag
+                            from r_ticket import all_callers
+                            cs = [cb for (cb, _bb) in all_callers(env, pb.def_) if cb.def_ != pb.def_]
+                            has_len_guard = bool(cs) and all(len_guard_in(cb) for cb in cs)
                         k = "DONE-SET|%s" % env.fname(pb)
                 if k in seen:
                     continue
